@@ -57,7 +57,7 @@ EXPECTED_PROBES = ["partial_last_batch", "batch_larger_than_set", "grid_invert_b
                    "negative_control_differs", "val_split_in_loop", "reset_after_continue",
                    "seed_given_as_generator", "n_beyond_int16", "n_beyond_uint16", "fifth_epoch_or_later",
                    "seed_ge_2_32", "soft_constraints_on", "tapped_after_warmup",
-                   "same_seed_in_another_interpreter"]
+                   "same_seed_in_another_interpreter", "zero_iteration_call_before_reset", "run_aborted_mid_epoch"]
 
 _ctx = {}
 
@@ -169,8 +169,12 @@ def gen(rng: Rng, tier, i):
             "variant": rng.pick(["two_instances", "reset_rerun", "both"]),
             # call history on one instance: R = reconstruct(reset=True), C = continue (reset=False),
             # N = first call on a fresh instance without reset
+            # Z = a zero-iteration call (configures the run, builds a batcher: draws the random split);
+            # A = a run that crashes in the middle of its first epoch (injected)
             "seq": rng.pick([["R", "R"], ["R", "C", "R"], ["N", "R"], ["N", "C", "R"], ["R", "C", "C", "R"],
-                             ["R", "R", "C", "R"], ["R", "R", "R"]]),
+                             ["R", "R", "C", "R"], ["R", "R", "R"], ["Z", "R"], ["Z", "Z", "R"],
+                             ["A", "R"], ["N", "A", "R"], ["Z", "A", "R"], ["R", "A", "R"]]),
+            "abort_frac": round(rng.fork("abort").random(), 3),
             "seed_as": rng.pick(["int", "int", "generator"]), "modes": rng.pick([1, 1, 2]),
             "global_rng": rng.randrange(10 ** 6),
             # the same seeded recipe in ANOTHER interpreter session with another string-hash salt
@@ -425,11 +429,18 @@ def _record_batches(pt):
     orig = pt.dset.forward
 
     def fwd(batch_indices, *a, **k):
+        stop = getattr(pt, "_qsim_abort_after", None)
+        if stop is not None and len(log) >= stop:
+            raise _Abort(f"injected abort after {stop} batches")     # a crash in the middle of an epoch
         log.append(np.asarray(batch_indices).copy())
         return orig(batch_indices, *a, **k)
 
     pt.dset.forward = fwd
     return log
+
+
+class _Abort(RuntimeError):
+    pass
 
 
 def child_first_run(plan):
@@ -560,6 +571,25 @@ def _run_C(plan, res, viol):
             if c == "C":
                 p3.reconstruct(num_iters=1, batch_size=plan["b"])
                 hist.append("C")
+                continue
+            if c == "Z":
+                p3.reconstruct(num_iters=0, batch_size=plan["b"], optimizer_params=opt)
+                bump(res["probes"], "zero_iteration_call_before_reset")
+                hist.append("Z")
+                continue
+            if c == "A":
+                p3._qsim_abort_after = int(plan.get("abort_frac", 0.5) * max(1, stride - 1))
+                try:
+                    p3.reconstruct(reset=(q > 0), **kw)
+                    aborted = False
+                except _Abort:
+                    aborted = True
+                finally:
+                    p3._qsim_abort_after = None
+                if aborted:
+                    bump(res["probes"], "run_aborted_mid_epoch")
+                    bump(res["faults"], "abort_mid_epoch")
+                hist.append("A")
                 continue
             if c == "N" and q == 0:
                 p3.reconstruct(reset=False, **kw)
